@@ -32,6 +32,9 @@ def _vspec(rng, g, kind=None, elem=None):
         ln = rng.choice(['n', 'n', 'n', 'n', 'n+1', 'n-1', 1, 0])
         c = rng.choice(['list', 'list', 'tuple', 'range', 'ndarray', 'ndarray', 'ndview', 'readonly', 'series'])
         e = elem if rng.random() < 0.85 else rng.choice(['none', 'nan', 'longstr', 'str', 'float'])
+        if rng.random() < 0.08:
+            # the caller's data source fails while it is being read (or, as a control, works)
+            return {'k': 'seq', 'c': 'faulty-' + rng.choice(['getitem', 'getitem', 'seq', 'seq', 'array', 'len']), 'len': rng.choice(['n', 'n', 'n', 1]), 'e': elem, 'base': base, 'at': rng.choice([None, 0, 1, 2, 5, -1])}
         return {'k': 'seq', 'c': c, 'len': ln, 'e': e, 'base': base}
     if k == 'nested':
         return {'k': 'nested', 'rows': rng.choice(['n', 'n', 'n', 'n-1', 1]), 'cols': rng.choice([1, 2, 2]), 'e': elem if elem in ('float', 'int') else 'float', 'base': base}
@@ -819,8 +822,21 @@ def execute(schedule, ctx):
         wcount[0] += 1
         return [((wcount[0] * 3) % n, wcount[0] % 2), ((wcount[0] * 5 + 1) % n, 0)]
 
+    made = []  # faulty operands handed out during the current operation
+
+    def make_value(vs, n_):
+        v_ = RC.make_value(vs, n_)
+        if isinstance(v_, RC.Faulty):
+            made.append(v_)
+            ctx.probe('faulty-operand:' + v_.mode + (':working' if v_.at is None else ''))
+        return v_
+
     for step, op in enumerate(schedule['ops']):
         ctx.step = step
+        for v_ in made:
+            for _ in range(v_.fired):
+                ctx.fault('data-source-error:' + v_.mode)
+        del made[:]
         i = op.get('obj', 0)
         if i >= len(parties):
             ctx.log(step, op['op'], 'no-such-party')
@@ -885,7 +901,7 @@ def execute(schedule, ctx):
         # -------------------------------------------------------------- operations
         if kind == 'add_variable':
             nm = op['name']
-            v = RC.make_value(op['value'], n)
+            v = make_value(op['value'], n)
             if op.get('pool') is not None:
                 # the caller hands the very same writeable array to several operations / objects
                 key = (op['pool'], n)
@@ -930,7 +946,7 @@ def execute(schedule, ctx):
 
         elif kind in ('setattr', 'setitem'):
             nm = op['name']
-            v = RC.make_value(op['value'], n)
+            v = make_value(op['value'], n)
             if nm == '?unknown':
                 if kind == 'setitem':
                     e = attempt(lambda: x.__setitem__('nosuchvar', v))
@@ -955,7 +971,7 @@ def execute(schedule, ctx):
 
         elif kind == 'setitem_label':
             nm = op['name']
-            v = RC.make_value(op['value'], n)
+            v = make_value(op['value'], n)
             if nm.startswith('?') and nm != '?unknown':
                 # the name of a bookkeeping attribute is not the name of a variable
                 bk = nm[1:]
@@ -997,7 +1013,7 @@ def execute(schedule, ctx):
             nm = op['name']
             if nm in party.ref:
                 sty = party.span_spec['type'] if party.span_spec else 'custom'
-                v = RC.make_value(op['value'], n)
+                v = make_value(op['value'], n)
                 a, b, step = op['a'], op['b'], op['step']
                 if isinstance(a, int) and a >= n:
                     a = n - 1
@@ -1028,7 +1044,7 @@ def execute(schedule, ctx):
         elif kind == 'set_pos':
             nm = op['name']
             if nm in party.ref:
-                v = RC.make_value(op['value'], n)
+                v = make_value(op['value'], n)
                 p = op['pos']
                 if -n <= p < n:
                     cls_, new = RC.expect_positions(party.ref[nm], int(p), v)
@@ -1043,7 +1059,7 @@ def execute(schedule, ctx):
                         read_paths(party, nm, ctx, positions_for_read(party) + [(p % n, 0)])
 
         elif kind == 'replace_values':
-            items = [(nm if nm != '?unknown' else 'nosuchvar', RC.make_value(vs, n), vs) for nm, vs in op['items'] if nm == '?unknown' or nm in party.ref]
+            items = [(nm if nm != '?unknown' else 'nosuchvar', make_value(vs, n), vs) for nm, vs in op['items'] if nm == '?unknown' or nm in party.ref]
             if items:
                 # applied left to right up to the first failure (DESIGN 3.x); each item judged as a whole-series assignment
                 exp = []
@@ -1072,6 +1088,18 @@ def execute(schedule, ctx):
                     invariants(party, ctx, 'replace_values')
                     party.sync()
                 else:
+                    if e is not None and isinstance(items[stop][1], RC.Faulty) and items[stop][1].fired:
+                        # the data source of item `stop` failed while the bulk replacement was under way: items before
+                        # it hold their new values or (all-or-nothing) their old ones, everything else is as it was
+                        ctx.probe('bulk-replacement-interrupted-by-failing-source')
+                        earlier = {items[j][0]: exp[j][1] for j in range(stop)}
+                        bad_ = []
+                        for nm_, old_ in party.ref.items():
+                            got_ = d.get('_' + nm_)
+                            okv = isinstance(got_, np.ndarray) and (RC.arrays_equal(got_, old_) or (nm_ in earlier and RC.arrays_equal(got_, earlier[nm_])))
+                            if not okv:
+                                bad_.append(nm_)
+                        ctx.check('C09', 'replace_values/failing-source/containment', not bad_, {'changed': bad_[:4], 'failed-item': items[stop][0]})
                     invariants(party, ctx, 'replace_values')
                     party.sync()
                 outcome = 'raised' if e is not None else 'ok'
@@ -1125,7 +1153,7 @@ def execute(schedule, ctx):
                         party.sync()
                 outcome = 'raised' if e is not None else 'ok'
             else:
-                v = RC.make_value(vs, n)
+                v = make_value(vs, n)
                 e = attempt(lambda: setattr(x, 'values', v))
                 if e is None:
                     bad = False
